@@ -22,6 +22,8 @@ type vcStreamWriter struct {
 	Err     error // first write error (the guarantee ends there)
 	Mix     map[string]int
 	MaxMsg  int
+	// NoSelfFlush: never use the patterns that flush by themselves (Append+Flush, Write)
+	NoSelfFlush bool
 }
 
 func (w *vcStreamWriter) note(k string) {
@@ -79,7 +81,11 @@ func (w *vcStreamWriter) Step(limit int, flushPct int) int {
 	start := w.Pos
 	n := w.size(limit)
 	flushed := false
-	switch r.intn(11) {
+	pat := r.intn(11)
+	if w.NoSelfFlush && (pat == 7 || pat == 8) {
+		pat = 0
+	}
+	switch pat {
 	case 0, 1:
 		buf, err := wr.Malloc(n)
 		if err != nil {
